@@ -581,9 +581,16 @@ def _read_request(
                 # instead of letting the conversion error escape the serve
                 # loop without a reply (pipe) or be reported as a server-side
                 # failure (HTTP).
+                try:
+                    column = repr(f.name)
+                except UnicodeDecodeError:
+                    # pyarrow decodes field names lazily: a name that is not UTF-8
+                    # is what failed above, and would fail again while the refusal
+                    # is being worded -- this time outside any handler.
+                    column = f"#{i} (its name is not valid UTF-8)"
                 raise RpcError(
                     "ProtocolError",
-                    f"Request parameter {f.name!r} of Arrow type {f.type} has no Python value: "
+                    f"Request parameter {column} of Arrow type {f.type} has no Python value: "
                     f"{type(exc).__name__}: {exc}",
                     "",
                 ) from exc
